@@ -394,6 +394,9 @@ func TestC10ScheduleMatrix(t *testing.T) {
 
 type c10WaitCase struct {
 	Micros []int `json:"micros"` // durations of successive <<wait>> commands, in microseconds
+	// AbandonAfter > 0: the first wait is started, abandoned after that many microseconds by restoring the snapshot taken
+	// at the start, and the dialogue is run again from there: every wait of the second run lasts its full time as well
+	AbandonAfter int `json:"abandon_after,omitempty"`
 }
 
 func runC10Wait(c c10WaitCase) Verdict {
@@ -407,8 +410,28 @@ func runC10Wait(c c10WaitCase) Verdict {
 	if err != nil {
 		return failf("script does not load: %v\n%s", err, b.String())
 	}
+	atStart := dr.Snapshot()
 	if r, ok := timedNext(dr, 10*time.Second); !ok || r.err != nil || r.el == nil {
 		return failf("unexpected first element")
+	}
+	abandoned := false
+	if c.AbandonAfter > 0 && c.AbandonAfter < c.Micros[0] {
+		r, ok := timedNext(dr, 10*time.Second)
+		if !ok || r.p != nil {
+			return failf("Next blocked or panicked when starting <<wait>>: %v", r.p)
+		}
+		if errors.Is(r.err, ysgo.ErrWaitingForCommandCompletion) {
+			time.Sleep(time.Duration(c.AbandonAfter) * time.Microsecond)
+			if err := dr.RestoreAt(atStart); err != nil {
+				return failf("RestoreAt failed while a wait was pending: %v", err)
+			}
+			if r, ok := timedNext(dr, 10*time.Second); !ok || r.err != nil || r.el == nil || r.el.Line == nil || r.el.Line.Text != "M0" {
+				return failf("after restoring the snapshot taken at the start (a <<wait>> was pending), expected the line M0, got %+v / %v", r.el, r.err)
+			}
+			abandoned = true
+		} else {
+			return Verdict{Discard: "the first wait was over at once"}
+		}
 	}
 	pending := 0
 	for i, us := range c.Micros {
@@ -437,7 +460,11 @@ func runC10Wait(c c10WaitCase) Verdict {
 		}
 		elapsed := time.Since(start)
 		if elapsed < want {
-			return failf("<<wait %v>> reported completion after %v, earlier than %v after it started", secs, elapsed, want)
+			note := ""
+			if abandoned {
+				note = fmt.Sprintf(" (an earlier <<wait %v>> of the same runner had been abandoned by RestoreAt %v after it started)", float64(c.Micros[0])/1e6, time.Duration(c.AbandonAfter)*time.Microsecond)
+			}
+			return failf("<<wait %v>> reported completion after %v, earlier than %v after it started%s", secs, elapsed, want, note)
 		}
 		if r.err != nil || r.el == nil || r.el.Line == nil || r.el.Line.Text != fmt.Sprintf("M%d", i+1) {
 			return failf("after <<wait %v>> expected the line M%d, got %+v / %v", secs, i+1, r.el, r.err)
@@ -446,7 +473,11 @@ func runC10Wait(c c10WaitCase) Verdict {
 			pending++
 		}
 	}
-	return Verdict{NonTrivial: pending >= 1, Classes: []string{fmt.Sprintf("waits=%d", len(c.Micros))}}
+	cls := []string{fmt.Sprintf("waits=%d", len(c.Micros))}
+	if abandoned {
+		cls = append(cls, "first-wait-abandoned-by-restore")
+	}
+	return Verdict{NonTrivial: pending >= 1, Classes: cls}
 }
 
 var c10Wait = Register(Prop[c10WaitCase]{
@@ -456,7 +487,11 @@ var c10Wait = Register(Prop[c10WaitCase]{
 		if tier() == "thorough" {
 			pool = append(pool, 600000, 1001000, 1200000, 1500000)
 		}
-		return c10WaitCase{Micros: rapid.SliceOfN(rapid.SampledFrom(pool), 1, 3).Draw(t, "micros")}
+		c := c10WaitCase{Micros: rapid.SliceOfN(rapid.SampledFrom(pool), 1, 3).Draw(t, "micros")}
+		if c.Micros[0] >= 10000 && rapid.IntRange(0, 2).Draw(t, "abandon") == 0 {
+			c.AbandonAfter = c.Micros[0] * rapid.IntRange(2, 8).Draw(t, "tenths") / 10
+		}
+		return c
 	},
 	Run: runC10Wait,
 })
